@@ -9,6 +9,13 @@ NOTE = old_checks["C12"]["level_note"]
 TECH = "Lean 4 theorem about an executable model + regenerated facts + differential correspondence"
 
 LEVEL = {
+ "C04": "refinement theorem in Lean 4: for every input and every finite drain schedule (GetData of any sizes, GetInternalBuffer, mixed) the "
+        "delivered bytes are exactly a prefix of the reference decoder's output (textbook LZSS over the unbounded history), calls fail only "
+        "at the tree's capacity, the reference terminates on every input; window/queue invariants (all indices < 4096, maxFill + 60 < 4096 "
+        "from the regenerated constant), offsets 12-bit; GetOffsetModifiers regenerated from the clang AST and proved equal to the model; "
+        "real HuffLZ under ASan/UBSan on encoder output covering every match length / position code / window wrap / capacity crossing, "
+        "random bytes, truncations, many drain schedules, LZH extraction through VolFile, against the compiled model and a harness-side "
+        "reference decoder; three independent encoders compared",
  "C15": "invariant WF proved for the constructor's tree (every T >= 2) and preserved by every accepted update, hence on every history; "
         "root count = T + updates so exactly 65535 - T updates are accepted and no 16-bit counter wraps; refusals return the old tree; "
         "WF => full binary prefix code, encoder bits drive the decoder walk to the symbol's leaf; LZHUF-style reference update proved "
